@@ -85,4 +85,22 @@ example : int2roman 1994 = "MCMXCIV".toList ∧ canonical 3999 = "MMMCMXCIX".toL
 example : batcherLen (2 ^ 53 + 1) 1 = 2 ^ 53 + 1 := by decide
 example : comparePos [1, 2, 2] [2, 1, 2] = true ∧ subSeq [1, 2] [0, 1, 2, 3] = true := by decide
 
+/-! ### BatcherIter on a tuple of iterables of different lengths -/
+
+/-- a tuple of two iterables is batched in lock-step and stops with the shorter one: the batches are exactly the batches of the
+two inputs cut to the common length, paired up -/
+theorem batcherIterPair_spec (xs ys : List Int) (b : Nat) (hb : 0 < b) :
+    batcherIterPair xs ys b =
+      (batcherIter (xs.take (min xs.length ys.length)) b).zip (batcherIter (ys.take (min xs.length ys.length)) b) := by
+  first | exact WindVerif.Generic.batcherIterPair_spec .. | (apply WindVerif.Generic.batcherIterPair_spec <;> assumption)
+
+/-- … and the two batch lists have the same shape (so nothing is lost by the `zip` above) -/
+theorem batcherIterPair_shape (xs ys : List Int) (b : Nat) (hb : 0 < b) :
+    (batcherIter (xs.take (min xs.length ys.length)) b).map List.length =
+      (batcherIter (ys.take (min xs.length ys.length)) b).map List.length := by
+  first | exact WindVerif.Generic.batcherIterPair_shape .. | (apply WindVerif.Generic.batcherIterPair_shape <;> assumption)
+
+/-- non-vacuity: `BatcherIter(([1,2,3], [7,8,9,10]), 2)` -/
+example : batcherIterPair [1, 2, 3] [7, 8, 9, 10] 2 = [([1, 2], [7, 8]), ([3], [9])] := by decide
+
 end WindVerif.C19
